@@ -55,6 +55,11 @@ pub struct Case {
     /// resolved or remembered during the first send carries over)
     #[serde(default)]
     pub send_twice: bool,
+    /// (fraction selecting one of the exchanges the walk consists of, kind): the peer ends that exchange without a complete
+    /// response head - 0 closes at once, 1 inside the status line, 2 inside a header line, 3 resets the connection. The
+    /// request fails there: nothing is sent again, nothing further is sent
+    #[serde(default)]
+    pub drop_at: Option<(u16, u8)>,
 }
 
 pub const METHODS: &[&str] = &["GET", "GET", "POST", "PUT", "PATCH", "DELETE", "HEAD", "OPTIONS", "QUERY"];
@@ -256,16 +261,16 @@ final outcome. non-trivial = >= 2 requests, or the bound hit exactly, or a relat
         let terminal = prop_oneof![Just(200u16), Just(204), Just(404), Just(500), Just(201)];
         prop_oneof![
             6 => (start.clone(), proptest::collection::vec(hop, 0..10), terminal.clone(), 0u32..9, prop::bool::weighted(0.85))
-                .prop_map(|(start, hops, terminal, max_redirections, follow)| Case { start, hops, terminal, max_redirections, follow, via_proxy: false, method: 0, send_twice: false }),
+                .prop_map(|(start, hops, terminal, max_redirections, follow)| Case { start, hops, terminal, max_redirections, follow, via_proxy: false, method: 0, send_twice: false, drop_at: None }),
             // exactly at the bound / one beyond it
             2 => (start.clone(), 0u32..9, proptest::collection::vec(good_hop.clone(), 10), terminal.clone())
-                .prop_map(|(start, max, hops, terminal)| Case { start, hops: hops.into_iter().take(max as usize).collect(), terminal, max_redirections: max, follow: true, via_proxy: false, method: 0, send_twice: false }),
+                .prop_map(|(start, max, hops, terminal)| Case { start, hops: hops.into_iter().take(max as usize).collect(), terminal, max_redirections: max, follow: true, via_proxy: false, method: 0, send_twice: false, drop_at: None }),
             2 => (start, 0u32..9, proptest::collection::vec(good_hop, 10), terminal)
-                .prop_map(|(start, max, hops, terminal)| Case { start, hops: hops.into_iter().take(max as usize + 1).collect(), terminal, max_redirections: max, follow: true, via_proxy: false, method: 0, send_twice: false }),
+                .prop_map(|(start, max, hops, terminal)| Case { start, hops: hops.into_iter().take(max as usize + 1).collect(), terminal, max_redirections: max, follow: true, via_proxy: false, method: 0, send_twice: false, drop_at: None }),
         ]
         .prop_flat_map(|c| {
-            (prop::bool::weighted(0.25), 0u8..METHODS.len() as u8, prop::bool::weighted(0.2), prop_oneof![12 => Just(None), 1 => Just(Some(u32::MAX)), 1 => Just(Some(u32::MAX - 1))]).prop_map(move |(via_proxy, method, send_twice, huge)| {
-                let mut c = Case { via_proxy, method, send_twice, ..c.clone() };
+            (prop::bool::weighted(0.25), 0u8..METHODS.len() as u8, prop::bool::weighted(0.2), prop_oneof![12 => Just(None), 1 => Just(Some(u32::MAX)), 1 => Just(Some(u32::MAX - 1))], prop_oneof![5 => Just(None), 1 => (any::<u16>(), 0u8..4).prop_map(Some)]).prop_map(move |(via_proxy, method, send_twice, huge, drop_at)| {
+                let mut c = Case { via_proxy, method, send_twice, drop_at, ..c.clone() };
                 // "no practical bound": the largest values of the setting behave like any other bound
                 if let Some(h) = huge {
                     if c.follow && c.hops.len() <= 10 {
@@ -361,7 +366,29 @@ final outcome. non-trivial = >= 2 requests, or the bound hit exactly, or a relat
             }
             i += 1;
         }
-        let expect = expect.unwrap();
+        let mut expect = expect.unwrap();
+        let mut reset_at: Option<usize> = None;
+        if let Some((f, kind)) = case.drop_at {
+            if !matches!(expect, Expect::AnyErrOrUnmodelled) && !urls.is_empty() && responses.len() >= urls.len() {
+                let k = (f as usize * urls.len()) >> 16;
+                let full = responses[k].clone();
+                let eol = full.windows(2).position(|w| w == b"\r\n").map(|p| p + 2).unwrap_or(full.len());
+                let cut = match kind % 4 {
+                    1 => 11.min(full.len()),
+                    2 => (eol + 5).min(full.len().saturating_sub(4)),
+                    _ => 0,
+                };
+                responses[k].truncate(cut);
+                responses.truncate(k + 1);
+                urls.truncate(k + 1);
+                if kind % 4 == 3 {
+                    reset_at = Some(k);
+                }
+                expect = Expect::SomeErr;
+                ctx.label("exchange-ended-by-the-peer-without-a-complete-head");
+            }
+        }
+        let expect = expect;
 
         // ---- run ---------------------------------------------------------------------------------
         let method = METHODS[case.method as usize % METHODS.len()];
@@ -390,7 +417,7 @@ final outcome. non-trivial = >= 2 requests, or the bound hit exactly, or a relat
             if idx > 40 {
                 return Err(std::io::Error::new(std::io::ErrorKind::ConnectionRefused, "harness: more than 40 connections"));
             }
-            let (t, log) = Scripted::new(vec![Ev::Data(resp), Ev::Eof]);
+            let (t, log) = Scripted::new(vec![Ev::Data(resp), if reset_at == Some(idx) { Ev::Err(std::io::ErrorKind::ConnectionReset) } else { Ev::Eof }]);
             n.push((dial.clone(), log));
             Ok(Box::new(t) as Box<dyn Transport>)
         });
